@@ -286,6 +286,8 @@ fn pre_dispatch(sim: &Sim) {
         hk.dispatch_no += 1;
         hk.in_dispatch = true;
         hk.expected_err = false;
+        hk.first_failure = None;
+        hk.faults_at_dispatch_start = hk.faults_fired.len();
         hk.waits.clear();
         hk.batch.clear();
         hk.batch_n_fd = 0;
@@ -533,6 +535,21 @@ fn after_dispatch(sim: &Rc<Sim>, t: Timeout, ok: bool, err: Option<String>, t_st
         let hk = sim.hk.borrow();
         (hk.waits.clone(), hk.expected_err)
     };
+    // C15: the error a source returned from its event processing is what the dispatch reports,
+    // whatever fails afterwards (applying that source's post action, another source)
+    {
+        let first = {
+            let hk = sim.hk.borrow();
+            if hk.faults_fired.len() == hk.faults_at_dispatch_start { hk.first_failure.clone() } else { None }
+        };
+        if let (Some((true, s1)), Some(e)) = (first, err.as_ref()) {
+            if !e.contains(&s1) {
+                sim.violate("dispatch.wrong_error_reported", vec![], format!("the first failure of this dispatch was the error `{}` returned by a source's event processing, but dispatch reported `{}`", s1, e));
+                return;
+            }
+            sim.rule_ok(&["C15"], 151);
+        }
+    }
     if !ok {
         sim.st.borrow_mut().dispatch_error_seen = true;
         sim.st.borrow_mut().any_dispatch_error = true;
@@ -1057,9 +1074,26 @@ pub fn event_end(sim: &Sim, _key: usize) {
             match last {
                 None => {}
                 Some(LastRet::Err) => {
-                    // the dispatch is abandoned; a deferred self-request may or may not
-                    // have been applied to this source
-                    if deferred.is_some() {
+                    // the error is reported at the end of the batch; what the callback requested
+                    // on its own source before failing is applied all the same (C09: exactly
+                    // once, as soon as the event processing finishes)
+                    if s.inserted && !s.indeterminate {
+                        match deferred {
+                            Some(Deferred::Disable) => {
+                                s.exp[2] += 1;
+                                model_disabled(s);
+                                sim.probe("deferred_request_applied_after_error");
+                            }
+                            Some(Deferred::Reregister) => {
+                                s.exp[1] += 1;
+                                if s.enabled {
+                                    model_reregistered(s, now);
+                                }
+                                sim.probe("deferred_request_applied_after_error");
+                            }
+                            None => {}
+                        }
+                    } else if deferred.is_some() {
                         s.indeterminate = true;
                     }
                 }
@@ -1355,6 +1389,15 @@ pub fn pe_end(id: Id, ret: LastRet, scripted: bool) {
                 }
             }
         }
+    }
+}
+
+/// a failure inside the dispatch in progress (only the first one is kept)
+pub fn note_failure(is_pe: bool, text: String) {
+    let Some(sim) = try_cur() else { return };
+    let mut hk = sim.hk.borrow_mut();
+    if hk.in_dispatch && hk.first_failure.is_none() {
+        hk.first_failure = Some((is_pe, text));
     }
 }
 
